@@ -1348,3 +1348,163 @@ M("n80", "neutral", [], "Header.is_legacy property (version_tuple < VERSION) use
   (IM, '''                    if self.header.version_tuple <= (1, 1):
                         self._add_1_1(data, variant, arch, image_obj)''', '''                    if self.header.is_legacy:
                         self._add_1_1(data, variant, arch, image_obj)'''))
+
+M("c02h", "fire", ["C02", "C06", "C07"], "a non-unified image may name one additional variant: written without it, read back empty",
+  (IM, '''        if self.additional_variants and not self.unified:''', '''        if len(self.additional_variants) > 1 and not self.unified:'''))
+
+M("n81", "neutral", [], "unified/additional_variants rule spelled as two nested ifs",
+  (IM, '''        if self.additional_variants and not self.unified:
+            raise ValueError("Only unified images can contain multiple variants")''', '''        if self.additional_variants:
+            if not self.unified:
+                raise ValueError("Only unified images can contain multiple variants")'''))
+
+M("n82", "neutral", [], "elements of additional_variants checked as well (stricter validator, same final rule)",
+  (IM, '''        if self.additional_variants and not self.unified:''', '''        for variant in self.additional_variants:
+            if not isinstance(variant, six.string_types):
+                raise TypeError("%s: additional variant must be a string: %s" % (self.__class__.__name__, variant))
+        if self.additional_variants and not self.unified:'''))
+
+M("n83", "neutral", [], "Image fields (de)serialised from a module-level table; mandatory keys still read hard, subvariant optional up to 1.0",
+  (IM, '''UniqueImage = namedtuple('UniqueImage', UNIQUE_IMAGE_ATTRIBUTES)
+''', '''UniqueImage = namedtuple('UniqueImage', UNIQUE_IMAGE_ATTRIBUTES)
+
+#: fields every serialized image carries, as (name, type to coerce to on load or None to take the value as is)
+IMAGE_FIELDS = [
+    ("path", None),
+    ("mtime", int),
+    ("size", int),
+    ("volume_id", None),
+    ("type", None),
+    ("format", None),
+    ("arch", None),
+    ("disc_number", int),
+    ("disc_count", int),
+    ("checksums", None),
+    ("implant_md5", None),
+    ("bootable", bool),
+    ("subvariant", None),
+]
+
+#: values for fields that may be left out of a serialized image
+IMAGE_FIELD_DEFAULTS = {
+    "format": "iso",
+}
+'''),
+  (IM, '''        result = {
+            "path": self.path,
+            "mtime": self.mtime,
+            "size": self.size,
+            "volume_id": self.volume_id,
+            "type": self.type,
+            "format": self.format,
+            "arch": self.arch,
+            "disc_number": self.disc_number,
+            "disc_count": self.disc_count,
+            "checksums": self.checksums,
+            "implant_md5": self.implant_md5,
+            "bootable": self.bootable,
+            "subvariant": self.subvariant,
+        }
+''', '''        result = dict((name, getattr(self, name)) for name, _ in IMAGE_FIELDS)
+'''),
+  (IM, '''        self.path = data["path"]
+        self.mtime = int(data["mtime"])
+        self.size = int(data["size"])
+        self.volume_id = data["volume_id"]
+        self.type = data["type"]
+        self.format = data.get("format", "iso")
+        self.arch = data["arch"]
+        self.disc_number = int(data["disc_number"])
+        self.disc_count = int(data["disc_count"])
+        self.checksums = data["checksums"]
+        self.implant_md5 = data["implant_md5"]
+        self.bootable = bool(data["bootable"])
+        if self.parent.header.version_tuple <= (1, 0):
+            self.subvariant = data.get("subvariant", "")
+        else:
+            # 1.1+
+            self.subvariant = data["subvariant"]
+''', '''        defaults = dict(IMAGE_FIELD_DEFAULTS)
+        if self.parent.header.version_tuple <= (1, 0):
+            # subvariant is mandatory since 1.1
+            defaults["subvariant"] = ""
+        for name, coerce in IMAGE_FIELDS:
+            if name in defaults:
+                value = data.get(name, defaults[name])
+            else:
+                value = data[name]
+            if coerce is not None:
+                value = coerce(value)
+            setattr(self, name, value)
+'''))
+
+M("c07k", "fire", ["C07"], "table-driven Image reader takes every missing field as None: volume_id, implant_md5 and bootable then load",
+  (IM, '''UniqueImage = namedtuple('UniqueImage', UNIQUE_IMAGE_ATTRIBUTES)
+''', '''UniqueImage = namedtuple('UniqueImage', UNIQUE_IMAGE_ATTRIBUTES)
+
+#: fields every serialized image carries, as (name, type to coerce to on load or None to take the value as is)
+IMAGE_FIELDS = [
+    ("path", None),
+    ("mtime", int),
+    ("size", int),
+    ("volume_id", None),
+    ("type", None),
+    ("format", None),
+    ("arch", None),
+    ("disc_number", int),
+    ("disc_count", int),
+    ("checksums", None),
+    ("implant_md5", None),
+    ("bootable", bool),
+    ("subvariant", None),
+]
+
+#: values for fields that may be left out of a serialized image
+IMAGE_FIELD_DEFAULTS = {
+    "format": "iso",
+}
+'''),
+  (IM, '''        result = {
+            "path": self.path,
+            "mtime": self.mtime,
+            "size": self.size,
+            "volume_id": self.volume_id,
+            "type": self.type,
+            "format": self.format,
+            "arch": self.arch,
+            "disc_number": self.disc_number,
+            "disc_count": self.disc_count,
+            "checksums": self.checksums,
+            "implant_md5": self.implant_md5,
+            "bootable": self.bootable,
+            "subvariant": self.subvariant,
+        }
+''', '''        result = dict((name, getattr(self, name)) for name, _ in IMAGE_FIELDS)
+'''),
+  (IM, '''        self.path = data["path"]
+        self.mtime = int(data["mtime"])
+        self.size = int(data["size"])
+        self.volume_id = data["volume_id"]
+        self.type = data["type"]
+        self.format = data.get("format", "iso")
+        self.arch = data["arch"]
+        self.disc_number = int(data["disc_number"])
+        self.disc_count = int(data["disc_count"])
+        self.checksums = data["checksums"]
+        self.implant_md5 = data["implant_md5"]
+        self.bootable = bool(data["bootable"])
+        if self.parent.header.version_tuple <= (1, 0):
+            self.subvariant = data.get("subvariant", "")
+        else:
+            # 1.1+
+            self.subvariant = data["subvariant"]
+''', '''        defaults = dict(IMAGE_FIELD_DEFAULTS)
+        if self.parent.header.version_tuple <= (1, 0):
+            # subvariant is mandatory since 1.1
+            defaults["subvariant"] = ""
+        for name, coerce in IMAGE_FIELDS:
+            value = data.get(name, defaults.get(name))
+            if coerce is not None:
+                value = coerce(value)
+            setattr(self, name, value)
+'''))
